@@ -4,6 +4,8 @@
 (* given by `new` or by the latest `recur`.  One `next`:                    *)
 (*    guard false  -> StopIterErr, state unchanged (so it keeps raising)    *)
 (*    guard true   -> returns Yield(a, b), state' = Recur(a, b)             *)
+(* Bodies that call recur BEFORE the guarded yield (EagerRecur) advance on   *)
+(* every next, also on the one that raises: recur takes effect when called.  *)
 (* `new` makes a fresh iterator, `_iter` a copy of the current state,       *)
 (* assignment an alias (same iterator).  A / list chain / reduce chain walk *)
 (* a copy: they return what successive `next` calls would, up to the first  *)
@@ -19,7 +21,9 @@ Guard(a, b) == CASE Body = "unguarded" -> TRUE
                  [] Body = "fib"       -> a < 3 * Lim
                  [] Body = "argvar"    -> a # Lim
                  [] Body = "twoyields" -> a # Lim
+                 [] Body \in {"recurfirst", "deferrecur"} -> a # 1 /\ a < Lim + 2       \* a hole at 1, then an end
                  [] OTHER              -> a < Lim
+EagerRecur == Body \in {"recurfirst", "deferrecur"}
 Yield(a, b) == IF Body = "local" THEN 2 * a ELSE a
 Recur(a, b) == CASE Body = "fib"  -> <<b, a + b>>
                  [] Body = "step" -> <<a + b, b>>
@@ -42,7 +46,8 @@ Next_(v) == /\ Defined(v)
             /\ LET s == its[Var(v)] IN
                IF Guard(s[1], s[2])
                THEN its' = [its EXCEPT ![Var(v)] = Recur(s[1], s[2])] /\ Log("next", v, <<"val", Yield(s[1], s[2])>>)
-               ELSE UNCHANGED its /\ Log("next", v, <<"stop">>)
+               ELSE /\ Log("next", v, <<"stop">>)
+                    /\ IF EagerRecur THEN its' = [its EXCEPT ![Var(v)] = Recur(s[1], s[2])] ELSE UNCHANGED its
             /\ UNCHANGED <<x, y>>
 WalkA(v)   == Finite /\ Defined(v) /\ Log("A", v, <<"list", Rest(its[Var(v)])>>) /\ UNCHANGED <<its, x, y>>
 WalkList(v) == Finite /\ Defined(v) /\ Log("list", v, <<"list", [k \in 1..Len(Rest(its[Var(v)])) |-> 10 * Rest(its[Var(v)])[k]]>>) /\ UNCHANGED <<its, x, y>>
@@ -63,5 +68,5 @@ OnlyTargetMoves == [][\A j \in 1..Len(its) : its'[j] # its[j] =>
 (* walks do not advance anything *)
 WalksArePure == [][(Len(log') > Len(log) /\ log'[Len(log')].op \in {"A", "list", "reduce"}) => its' = its]_vars
 (* a stopped iterator stays stopped *)
-StoppedStays == \A j \in 1..Len(its) : ~Guard(its[j][1], its[j][2]) => Rest(its[j]) = <<>>
+StoppedStays == ~EagerRecur => \A j \in 1..Len(its) : ~Guard(its[j][1], its[j][2]) => Rest(its[j]) = <<>>
 =============================================================================
